@@ -55,7 +55,7 @@ def sync_program(draw):
             spec = {"kind": k, "k": draw(st.integers(0, 40))}
             if k == "foreign":
                 spec["f"] = draw(st.sampled_from(FOREIGN))
-            steps.append({"op": "REPORT", "kind": "sync", "fe": fe, "coll": coll, "tok": spec})
+            steps.append({"op": "REPORT", "kind": "sync", "fe": fe, "coll": coll, "tok": spec, "props": draw(st.sampled_from(["etag", "etag", "etag", "ctype", "rt+ctype", "etag+ctype", "none"]))})
         elif op == "PROPPATCH":
             steps.append({"op": "PROPPATCH", "fe": fe, "coll": coll, "set": [[P_DISPLAYNAME, draw(st.sampled_from(["one", "two"]))]], "remove": []})
         elif op == "RECREATE":
@@ -68,7 +68,7 @@ def sync_program(draw):
     # query every recorded token at the end
     for c in sorted(set(colls)):
         for k in range(draw(st.integers(2, 6))):
-            steps.append({"op": "REPORT", "kind": "sync", "fe": draw(gen_prog.FE), "coll": c, "tok": {"kind": "issued", "k": draw(st.integers(0, 40))}})
+            steps.append({"op": "REPORT", "kind": "sync", "fe": draw(gen_prog.FE), "coll": c, "tok": {"kind": "issued", "k": draw(st.integers(0, 40))}, "props": draw(st.sampled_from(["etag", "etag", "ctype", "rt+ctype", "none"]))})
     return {"config": cfg, "steps": steps}
 
 
